@@ -7,7 +7,7 @@ from typing import Any, Dict, List, Optional, Set, Tuple
 from ..core import AnalysisError, Report
 from ..excflow import make_hierarchy
 from ..pycfg import run_typestate
-from ..pyfacts import Repo, calls, dotted, enclosing_handlers, handler_types, norm, walk_no_nested
+from ..pyfacts import Repo, clone, eval_int_expr, inline_block, inline_pure_temps, calls, dotted, enclosing_handlers, handler_types, norm, walk_no_nested
 from ..spec import machine as M
 from ..steps import PyLoop, RUN_REL
 
@@ -187,15 +187,67 @@ def rule_readonly(rep: Report, repo: Repo) -> None:
 def rule_decode(rep: Report, repo: Repo) -> None:
     rep.rule('C15.DECODE', 'variable reads take the jump word of each op (first + w, stride 2w), the data bits at offset #w (the same offset '
              'the device adapter uses), 1/4/8 bits per cell, most significant cell last; :f/:j reads add 2*len*index (+1 for j) words', 4)
-    cv = repo.func(BRK, 'calculate_variable_value')
-    txt = norm(cv)
-    rep.check('range(first_address + w, last_address, 2 * w)' in txt and 'first_address = address + index_offset_in_w * w' in txt and
-              'last_address = first_address + 2 * w * variable_length' in txt and 'index_offset_in_w = 2 * variable_length * index' in txt,
-              'C15.DECODE', 'addresses', 'jump words of the ops [first, last) with stride 2w', f'{BRK}:{cv.lineno}')
-    rep.check("data_bits = word >> w.bit_length() & (1 << bits_per_word) - 1" in txt and "{'b': 1, 'h': 4, 'B': 8}[variable_type]" in txt,
-              'C15.DECODE', 'data-bits', 'data bits at offset #w, width by type', f'{BRK}:{cv.lineno}')
-    rep.check('for word in variable_memory_words[::-1]' in txt and 'value = value << bits_per_word | data_bits' in txt, 'C15.DECODE', 'cell-order',
-              'cells combined least-significant first', f'{BRK}:{cv.lineno}')
+    cv = inline_pure_temps(repo.func(BRK, 'calculate_variable_value'))     # call-free single-assignment temporaries are substituted
+    site = f'{BRK}:{cv.lineno}'
+    # the width table: {'b': 1, 'h': 4, 'B': 8}[variable_type] -> the symbol bpw
+    tables = [n for n in ast.walk(cv) if isinstance(n, ast.Subscript) and isinstance(n.value, ast.Dict) and norm(n.slice) == 'variable_type']
+    tab_ok = bool(tables) and all({norm(k): norm(v) for k, v in zip(t.value.keys, t.value.values)} == {"'b'": '1', "'h'": '4', "'B'": '8'}   # type: ignore[attr-defined]
+                                  for t in tables)
+
+    class Bpw(ast.NodeTransformer):
+        def visit_Subscript(self, node: ast.Subscript) -> ast.AST:
+            if isinstance(node.value, ast.Dict) and norm(node.slice) == 'variable_type':
+                return ast.Name(id='bpw', ctx=ast.Load())
+            return self.generic_visit(node)
+    cv2 = ast.fix_missing_locations(Bpw().visit(clone(cv)))
+    # (1) the words read: mem.get_word(a) for a in range(A, B, C), folded on a grid against the reference op addresses
+    comps = [c for c in ast.walk(cv2) if isinstance(c, ast.ListComp) and len(c.generators) == 1 and isinstance(c.elt, ast.Call)
+             and dotted(c.elt.func) == 'mem.get_word' and isinstance(c.generators[0].target, ast.Name)
+             and norm(c.elt.args[0]) == c.generators[0].target.id and not c.generators[0].ifs]
+    wrong: List[str] = []
+    if len(comps) == 1 and isinstance(comps[0].generators[0].iter, ast.Call) and dotted(comps[0].generators[0].iter.func) == 'range' \
+            and len(comps[0].generators[0].iter.args) == 3:
+        A, B, C = comps[0].generators[0].iter.args
+        for wv in (8, 16, 32, 64):
+            for addr in (0, 2 * wv, 10 * wv):
+                for ln in (1, 2, 5):
+                    for idx in (0, 1, 3):
+                        env = {'address': addr, 'variable_length': ln, 'index': idx, 'mem.memory_width': wv, 'w': wv}
+                        got = list(range(eval_int_expr(A, env), eval_int_expr(B, env), eval_int_expr(C, env)))
+                        first = addr + 2 * ln * idx * wv
+                        want = [first + 2 * wv * k + wv for k in range(ln)]
+                        if got != want:
+                            wrong.append(f'w={wv} address={addr} len={ln} index={idx}: {got[:3]} vs {want[:3]}')
+    else:
+        wrong.append('the word list is no longer [mem.get_word(a) for a in range(A, B, C)]')
+    rep.check(not wrong, 'C15.DECODE', 'addresses', wrong[0] if wrong else 'jump words of the ops [first, last) with stride 2w (108 grid cases)', site)
+    # (2) + (3) the fold: for word in <words reversed>: value = value << bpw | (word >> #w) & ((1 << bpw) - 1)
+    loops = [n for n in cv2.body if isinstance(n, ast.For) and isinstance(n.target, ast.Name)]
+    fold_wrong: List[str] = []
+    order_ok = False
+    if len(loops) == 1:
+        lp = loops[0]
+        it = lp.iter
+        order_ok = (isinstance(it, ast.Subscript) and norm(it.slice) == '::-1') or (isinstance(it, ast.Call) and dotted(it.func) == 'reversed')
+        body = inline_block(lp.body)
+        if len(body) == 1 and isinstance(body[0], ast.Assign) and norm(body[0].targets[0]) == 'value':
+            for wv in (8, 16, 32, 64):
+                for bp in (1, 4, 8):
+                    for word in (0, 1 << wv.bit_length(), (1 << (wv - 1)) | (0x5B << wv.bit_length()) | 3, (1 << wv) - 1):
+                        for val in (0, 1, 0xA5):
+                            env = {'value': val, lp.target.id: word, 'bpw': bp, 'mem.memory_width': wv, 'w': wv}
+                            got = eval_int_expr(body[0].value, env)
+                            want = (val << bp) | ((word >> wv.bit_length()) & ((1 << bp) - 1))
+                            if got != want:
+                                fold_wrong.append(f'w={wv} bits={bp} word={word:#x} value={val:#x}: {got:#x} vs {want:#x}')
+        else:
+            fold_wrong.append('the loop body does not reduce to one assignment of value')
+    else:
+        fold_wrong.append('no single fold loop')
+    rep.check(tab_ok and not fold_wrong, 'C15.DECODE', 'data-bits', fold_wrong[0] if fold_wrong else
+              f'data bits at offset #w, width by type (table ok={tab_ok}; 144 grid cases)', site)
+    rep.check(order_ok, 'C15.DECODE', 'cell-order', 'cells combined from the last word to the first (the first cell ends least significant)'
+              if order_ok else 'iteration order of the fold changed', site)
     off = repo.func(DM, 'DeviceMemory._data_bit_offset')
     ret = [norm(r.value) for r in ast.walk(off) if isinstance(r, ast.Return)]
     rep.check(ret == ['self.memory_width.bit_length()'], 'C15.DECODE', 'same-offset-as-device', str(ret), f'{DM}:{off.lineno}',
